@@ -103,6 +103,7 @@ type cwWorld struct {
 	plan        *cwPlan                   // a contract deployment onto an address that was funded beforehand
 	hunt        bool                      // time spends of small unlocked outputs to the block that trims them
 	busy        bool                      // more region blocks, and every one of them delivers a burst of lockup coinbases
+	convertQi   bool                      // some Qi spends are Qi -> Quai conversions
 	forceRegion int                       // when it counts down to zero the block being built is of region order
 	qiBoost     int                       // extra Qi spends per round
 	born        map[types.OutPoint]uint64 // creation height of outputs made on this chain
@@ -199,10 +200,12 @@ func creationFee(parent *types.WorkObject) *big.Int {
 
 // newHierWorld: the same generator on top of a real prime / region / zone hierarchy: inbound ETXs are whatever the
 // dominant chains confirm, nothing is synthesised
-func newHierWorld(rc *h.Rng, rg cwRegime) (*cwWorld, error) {
+func newHierWorld(rc *h.Rng, rg cwRegime) (*cwWorld, error) { return newHierWorldN(rc, rg, 1) }
+
+func newHierWorldN(rc *h.Rng, rg cwRegime, nzones int) (*cwWorld, error) {
 	quai, allocs := cwAccounts()
 	_, wallocs := cwWatch()
-	hr, err := newHier(append(allocs, wallocs...))
+	hr, err := newHierN(append(allocs, wallocs...), nzones)
 	if err != nil {
 		return nil, err
 	}
@@ -588,7 +591,16 @@ func (w *cwWorld) userActivity() {
 		default:
 			// Quai -> Qi conversion: a value transfer to a Qi address of the same zone
 			to := w.randQiAddr()
-			txs.add(w.signQuai(a, &to, new(big.Int).Mul(big.NewInt(int64(1+rc.Intn(5))), params.MinQuaiConversionAmount), nil, 200000, types.AccessTuple{Address: to}))
+			var slipData []byte
+			if rc.Chance(60) {
+				slip := []uint16{0, 10, 100, 1000, 5000, 9000, 9999}[rc.Intn(7)]
+				slipData = []byte{byte(slip >> 8), byte(slip)}
+			}
+			amt := new(big.Int).Mul(big.NewInt(int64(1+rc.Intn(5))), params.MinQuaiConversionAmount)
+			if rc.Chance(15) {
+				amt.Mul(amt, big.NewInt(int64(20+rc.Intn(2000)))) // far above the running average: heavy discount, floor, reverts
+			}
+			txs.add(w.signQuai(a, &to, amt, slipData, 200000, types.AccessTuple{Address: to}))
 			w.count("tx:convert-to-qi")
 		}
 	}
@@ -798,7 +810,19 @@ func (w *cwWorld) qiSpend(height uint64) *types.Transaction {
 	if len(outs) == 0 {
 		outs = append(outs, *types.NewTxOut(0, w.qi[free[perm]].addr.Bytes(), big.NewInt(0)))
 	}
-	inner := &types.QiTx{ChainID: w.node.sl.Config().ChainID, TxIn: ins, TxOut: outs}
+	var data []byte
+	if w.convertQi && rc.Chance(35) && w.head().PrimeTerminusNumber().Uint64() >= params.ControllerKickInBlock {
+		// Qi -> Quai conversion: every output goes to one Quai address of this zone; the data carries the sender's
+		// slippage bound (2 bytes, basis points) and the Qi address a refused conversion is refunded to
+		to := w.rewardAddr()
+		for i := range outs {
+			outs[i] = *types.NewTxOut(outs[i].Denomination, to.Bytes(), big.NewInt(0))
+		}
+		slip := []uint16{0, 10, 100, 1000, 5000, 9000, 9999}[rc.Intn(7)]
+		data = append([]byte{byte(slip >> 8), byte(slip)}, w.qi[picked[0].key].addr.Bytes()...)
+		w.count("tx:qi-convert-to-quai")
+	}
+	inner := &types.QiTx{ChainID: w.node.sl.Config().ChainID, TxIn: ins, TxOut: outs, Data: data}
 	tx := utSign(inner, privs)
 	for _, c := range picked {
 		w.spentInPool[fmt.Sprintf("%x:%d", c.op.TxHash, c.op.Index)] = true
@@ -866,6 +890,9 @@ func (w *cwWorld) build() (*cwStep, error) {
 		return nil, err
 	}
 	st := cwStep{blk: blk, order: want}
+	if _, ord, err := n.hc.CalcOrder(blk); err == nil {
+		st.order = ord // in a hierarchy the accumulated entropy may leave no seal of the wanted order
+	}
 	if want == common.REGION_CTX && n.h == nil {
 		st.inbound = w.synthInbound(blk.NumberU64(common.ZONE_CTX))
 	}
